@@ -291,6 +291,11 @@ pub fn build(quick: bool) -> Vec<Scenario> {
     for adders in [&["22"][..], &["23"], &["2d"], &["32d"], &["2", "2"], &["2", "4"], &["0", "2"], &["2d", "2"], &["24", "2d"], &["2", "s2"], &["2", "s2s2"], &["22", "s2"], &["2", "s4"]] {
         let adders: &'static [&'static str] = adders;
         v.push(Scenario::new("C08", "timer_list", format!("timerlist.{}", adders.join("_")), Arc::new(move |e| timer_list(e, adders))).fine().t2().vt_horizon(100 * MS).tier(quick));
+        if adders.iter().any(|a| a.contains('s')) {
+            // the same member with the adders ahead of the timer thread in the default schedule: an add that lands inside
+            // the timer thread's "list drained" bookkeeping is then two deviations away instead of three
+            v.push(Scenario::new("C08", "timer_list", format!("timerlist.{}.adders_first", adders.join("_")), Arc::new(move |e| timer_list(e, adders))).fine().t2().desc().vt_horizon(100 * MS).tier(quick));
+        }
     }
     v
 }
